@@ -346,7 +346,7 @@ func C05(tier string) int {
 	run := h.NewRun("C05", tier, "exploration", "", 25*time.Minute)
 	maxLen, maxParts, refLen := 4, 3, 3
 	if tier == "thorough" {
-		maxLen, maxParts, refLen = 6, 4, 4
+		maxLen, maxParts, refLen = 5, 4, 4
 	}
 	const lim = 50
 	fixed := [][]byte{
@@ -388,24 +388,6 @@ func C05(tier string) int {
 			run.Sample("case", 8, map[string]interface{}{"mode": c.Mode, "state": c.State, "msg": fmt.Sprintf("%q", c.Msg), "chunks": c.Chunks, "seg": c.Seg})
 		}
 	}
-	h.ParallelFor(len(okMsgs), func(i int) {
-		if run.Expired() {
-			return
-		}
-		msg := okMsgs[i]
-		n := 0
-		compositions(len(msg), maxParts, func(ch []int) {
-			if run.Expired() {
-				return
-			}
-			for _, mode := range modes {
-				for _, seg := range segsAll {
-					n++
-					judge(C05Case{Mode: mode, State: "ok", Msg: msg, Chunks: append([]int(nil), ch...), Seg: seg}, i%1999 == 7 && n == 5)
-				}
-			}
-		})
-	})
 	for _, f := range fixed {
 		// fixed payloads: chunkings into <=2 chunks at every position
 		for _, mode := range modes {
@@ -452,6 +434,25 @@ func C05(tier string) int {
 			return
 		}
 		judge(cases[i], i%1999 == 7)
+	})
+	// the big family last: if the time budget runs out it is this one that is cut short (and reported as such)
+	h.ParallelFor(len(okMsgs), func(i int) {
+		if run.Expired() {
+			return
+		}
+		msg := okMsgs[i]
+		n := 0
+		compositions(len(msg), maxParts, func(ch []int) {
+			if run.Expired() {
+				return
+			}
+			for _, mode := range modes {
+				for _, seg := range segsAll {
+					n++
+					judge(C05Case{Mode: mode, State: "ok", Msg: msg, Chunks: append([]int(nil), ch...), Seg: seg}, i%1999 == 7 && n == 5)
+				}
+			}
+		})
 	})
 	return run.Finish()
 }
